@@ -29,6 +29,8 @@ rp_init(rp *p, int fd, int kind)
 	nonblock(fd);
 }
 
+int rp_socket_sndbuf = 0;
+
 int
 rp_attach_socket(rp *p, nng_listener l)
 {
@@ -36,6 +38,11 @@ rp_attach_socket(rp *p, nng_listener l)
 	if (socketpair(AF_UNIX, SOCK_STREAM, 0, fds) != 0)
 		return -1;
 	nonblock(fds[1]);
+	if (rp_socket_sndbuf > 0) {
+		// a small kernel buffer on nng's end: a peer that stops reading stalls nng's writes after a few KiB
+		int v = rp_socket_sndbuf;
+		setsockopt(fds[1], SOL_SOCKET, SO_SNDBUF, &v, sizeof v);
+	}
 	int rv = nng_listener_set_int(l, NNG_OPT_SOCKET_FD, fds[1]);
 	if (rv != 0) {
 		close(fds[0]);
@@ -236,6 +243,7 @@ rp_pump(rp *p)
 		p->rd_calls++;
 		if (n > 0) {
 			p->rxlen += (size_t) n;
+			p->rd_total += n;
 			continue;
 		}
 		if (n == 0) {
